@@ -17,11 +17,12 @@
   original renumbered by visit position with every arrival bond first, so every atom is entered through
   bond index 0 and the walker's and the builder's parity compensations cancel; the ring-number pools agree
   up to the renumbering of their keys.  The text-level statements (stage 1) are kept.
-  What is not a theorem: `walk` (loop model) = `walkRec` (recursive model), compared on every run.
+  `graph_fixed_point_walk` states it about `walk` itself (Purr/Lemmas/LoopRecL.lean: loop = recursion).
 -/
 import Purr.Props.C01
 import Purr.Lemmas.PoolL
 import Purr.Lemmas.FixL
+import Purr.Lemmas.LoopRecL
 namespace Purr.C14
 open Purr Purr.Spec
 
@@ -43,6 +44,20 @@ theorem graph_fixed_point (g : Graph) (hw : WellFormed g) (es : List (Event × N
   · intro es' ord' h'
     rw [hfix es' ord' h', C09.write_norm]
     exact hw'
+
+/-- the same, stated about `walk` itself on both cycles: if the traversal of the re-read graph ends with `ok`
+    (by C06/C11 the only alternative is D17), writing it reproduces the text character for character -/
+theorem graph_fixed_point_walk (g : Graph) (hw : WellFormed g) (hok : (walk g).2 = .ok) (hne : (walk g).1 ≠ []) :
+    ∃ t g', write? (walk g).1 = some t ∧ (read t).2 = .ok ∧ build? (read t).1 = some (.ok g') ∧
+      ((walk g').2 = .ok → write? (walk g').1 = some t) := by
+  obtain ⟨es, ord, hr, hev⟩ := walkRec_of_walk_ok g hw hok
+  have hne' : es ≠ [] := by intro e; subst e; simp at hev; exact hne hev
+  obtain ⟨t, g', h1, h2, h3, h4⟩ := graph_fixed_point g hw es ord hr hne'
+  refine ⟨t, g', by rw [← hev]; exact h1, h2, h3, ?_⟩
+  intro hok'
+  have hw' : WellFormed g' := C10.build_ok_wellformed _ (C08.reader_conformant t) g' h3
+  obtain ⟨es', ord', hr', hev'⟩ := walkRec_of_walk_ok g' hw' hok'
+  rw [← hev']; exact h4 es' ord' hr'
 
 /-- … and for every accepted string that builds: the normal form written for its graph is a fixed point -/
 theorem string_fixed_point (s : Str) (g : Graph) (hb : build? (read s).1 = some (.ok g))
